@@ -1,6 +1,7 @@
 #!/bin/sh
 # usage: tools/seedverify.sh <worktree>   — confirm a seeded change: suite passes with it, demo fails with it, demo passes without it
 W=$1
+T=$(basename "$W")
 cd "$W" || exit 2
 echo "### $W"
 git apply --check -R SEED/patch.diff 2>/dev/null || { git checkout -q -- . ; git apply SEED/patch.diff || exit 3; }
@@ -8,8 +9,8 @@ echo "--- diffstat"; git diff --stat | tail -3
 echo "--- suite with change"
 cargo test --workspace --no-fail-fast --offline 2>&1 | grep -E "^test result|FAILED|panicked|error(\[|:)" | sort | uniq -c | sort -rn | head -8
 echo "--- demo with change (expect failure)"
-sh SEED/demo/run.sh > /tmp/sv-demo-with.log 2>&1; echo "rc=$?"; grep -E "test result|VIOLAT|violated|FAILED|panicked" /tmp/sv-demo-with.log | head -6
+sh SEED/demo/run.sh > /tmp/sv-demo-with-$T.log 2>&1; echo "rc=$?"; grep -E "test result|VIOLAT|violated|FAILED|panicked" /tmp/sv-demo-with-$T.log | head -6
 echo "--- demo without change (expect pass)"
-git apply -R SEED/patch.diff && sh SEED/demo/run.sh > /tmp/sv-demo-without.log 2>&1; echo "rc=$?"; grep -E "test result|VIOLAT|violated|FAILED|panicked" /tmp/sv-demo-without.log | head -4
+git apply -R SEED/patch.diff && sh SEED/demo/run.sh > /tmp/sv-demo-without-$T.log 2>&1; echo "rc=$?"; grep -E "test result|VIOLAT|violated|FAILED|panicked" /tmp/sv-demo-without-$T.log | head -4
 git apply SEED/patch.diff
 git status --short | head -5
